@@ -120,7 +120,8 @@ where
 {
     // Just decent size bounds checks to ensure we have a lot of space.
     assert!(M::FORMATTED_SIZE < BUFFER_SIZE - 2);
-    debug_assert!(bytes.len() >= BUFFER_SIZE);
+    // NOTE: The sign may already have taken 1 byte of a `BUFFER_SIZE` buffer.
+    debug_assert!(bytes.len() >= BUFFER_SIZE - 1);
 
     // Config options
     let format = NumberFormat::<{ FORMAT }> {};
@@ -192,7 +193,8 @@ where
 
     // Just decent size bounds checks to ensure we have a lot of space.
     assert!(M::FORMATTED_SIZE < BUFFER_SIZE - 2);
-    debug_assert!(bytes.len() >= BUFFER_SIZE);
+    // NOTE: The sign may already have taken 1 byte of a `BUFFER_SIZE` buffer.
+    debug_assert!(bytes.len() >= BUFFER_SIZE - 1);
 
     // Config options
     let format = NumberFormat::<{ FORMAT }> {};
